@@ -1,2 +1,832 @@
-(* C14 — stub *)
+(* C14 — proofs.  First half: generic in the value type V, the field type F, the type
+   assertions and the field constructors (so every theorem holds for whatever zap.Any,
+   zap.NamedError and the dynamic types of the arguments are).  Second half: the wire
+   instance (V = F = sx) and the link spec/model. *)
+From Coq Require Import List ZArith Bool Lia Sorted.
+From Coq.Strings Require Import Byte.
+Import ListNotations.
 From Zap Require Import Base.Wire C14.Model.
+
+Section Generic.
+  Variables V F : Type.
+  Variable as_field : V -> option F.
+  Variable is_error : V -> bool.
+  Variable as_string : V -> option bytes.
+  Variable any_fld : bytes -> V -> F.
+  Variable named_error : bytes -> V -> F.
+  Variable array_invalid : list (nat * V * V) -> F.
+
+  Local Notation sweep' := (sweep V F as_field is_error as_string any_fld named_error).
+  Local Notation sweeten' := (sweeten V F as_field is_error as_string any_fld named_error array_invalid).
+  Local Notation items' := (items V F as_field is_error as_string).
+  Local Notation error_fld' := (error_fld V F named_error).
+  Local Notation out_field' := (out_field V F any_fld named_error).
+  Local Notation fields_of' := (fields_of V F any_fld named_error).
+  Local Notation diag_calls_of' := (diag_calls_of V F any_fld named_error array_invalid).
+  Local Notation spec_sweeten' := (spec_sweeten V F as_field is_error as_string any_fld named_error array_invalid).
+  Local Notation check_write' := (check_write V F as_field is_error as_string any_fld named_error array_invalid).
+  Local Notation slog' := (slog V F as_field is_error as_string any_fld named_error array_invalid).
+  Local Notation slogln' := (slogln V F as_field is_error as_string any_fld named_error array_invalid).
+  Local Notation swith' := (swith V F as_field is_error as_string any_fld named_error array_invalid).
+  Local Notation do_call' := (do_call V F as_field is_error as_string any_fld named_error array_invalid).
+  Local Notation run' := (run V F as_field is_error as_string any_fld named_error array_invalid).
+  Local Notation spec_withs' := (spec_withs V F as_field is_error as_string any_fld named_error array_invalid).
+  Local Notation get_message' := (get_message V as_string).
+  Local Notation item' := (item V F).
+  Local Notation sw' := (sw V F).
+
+  (* ------------------------------------------------------------------ *)
+  (* the effect of one item on the sweep state *)
+  Definition apply_item (s : sw') (it : item') : sw' :=
+    match it with
+    | IField _ f => push_field V F f s
+    | IFirstErr _ e => push_field V F (error_fld' e) (set_seen V F s)
+    | IExtraErr _ e => push_call V F (multipleErrMsg, [error_fld' e]) s
+    | IPair _ k v => push_field V F (any_fld k v) s
+    | IBadPair p k v => push_invalid V F (p, k, v) s
+    | IDangling _ k => push_call V F (oddNumberErrMsg, [any_fld key_ignored k]) s
+    end.
+  Definition apply_items (its : list item') (s : sw') : sw' := fold_left apply_item its s.
+
+  (* the s.base.Error call an item causes during the sweep *)
+  Definition call_of (it : item') : option (bcall F) :=
+    match it with
+    | IExtraErr _ e => Some (multipleErrMsg, [error_fld' e])
+    | IDangling _ k => Some (oddNumberErrMsg, [any_fld key_ignored k])
+    | _ => None
+    end.
+  Definition calls_in_order (its : list item') : list (bcall F) := filter_map call_of its.
+
+  Lemma nth_error_mid : forall (pre : list V) a r, nth_error (pre ++ a :: r) (length pre) = Some a.
+  Proof. intros pre a r. rewrite nth_error_app2 by lia. rewrite Nat.sub_diag. reflexivity. Qed.
+
+  Lemma app_cons_assoc : forall (pre : list V) a r, pre ++ a :: r = (pre ++ [a]) ++ r.
+  Proof. intros. rewrite <- app_assoc. reflexivity. Qed.
+
+  (* The index-based sweep, started at position |pre| of pre ++ l with enough fuel,
+     finishes and has exactly the effect of the structural parse of l. *)
+  Lemma sweep_items : forall n l, length l <= n ->
+    forall pre s fuel, length l < fuel ->
+    sweep' fuel (pre ++ l) (length pre) s = Done (apply_items (items' (length pre) (sw_seen s) l) s).
+  Proof.
+    induction n as [|n IH]; intros l Hn pre s fuel Hf.
+    - destruct l as [|a r]; [|cbn in Hn; lia].
+      destruct fuel as [|fuel]; [cbn in Hf; lia|].
+      cbn [sweep]. rewrite app_nil_r.
+      replace (length pre <? length pre) with false by (symmetry; apply Nat.ltb_ge; lia).
+      reflexivity.
+    - destruct l as [|a r].
+      + destruct fuel as [|fuel]; [cbn in Hf; lia|].
+        cbn [sweep]. rewrite app_nil_r.
+        replace (length pre <? length pre) with false by (symmetry; apply Nat.ltb_ge; lia).
+        reflexivity.
+      + destruct fuel as [|fuel]; [cbn in Hf; lia|].
+        cbn [length] in Hn, Hf.
+        cbn [sweep].
+        replace (length pre <? length (pre ++ a :: r)) with true
+          by (symmetry; apply Nat.ltb_lt; rewrite app_length; cbn [length]; lia).
+        cbn [negb]. rewrite nth_error_mid.
+        cbn [items].
+        destruct (as_field a) as [f|] eqn:Ef.
+        * (* typed field *)
+          rewrite (app_cons_assoc pre a r).
+          replace (length pre + 1) with (length (pre ++ [a])) by (rewrite app_length; reflexivity).
+          rewrite (IH r) by lia.
+          replace (length (pre ++ [a])) with (S (length pre)) by (rewrite app_length; cbn; lia).
+          reflexivity.
+        * destruct (is_error a) eqn:Ee.
+          -- (* bare error *)
+             destruct (sw_seen s) eqn:Es; cbn [negb].
+             ++ rewrite (app_cons_assoc pre a r).
+                replace (length pre + 1) with (length (pre ++ [a])) by (rewrite app_length; reflexivity).
+                rewrite (IH r) by lia.
+                replace (length (pre ++ [a])) with (S (length pre)) by (rewrite app_length; cbn; lia).
+                cbn [push_call sw_seen]. rewrite Es. reflexivity.
+             ++ rewrite (app_cons_assoc pre a r).
+                replace (length pre + 1) with (length (pre ++ [a])) by (rewrite app_length; reflexivity).
+                rewrite (IH r) by lia.
+                replace (length (pre ++ [a])) with (S (length pre)) by (rewrite app_length; cbn; lia).
+                reflexivity.
+          -- destruct r as [|b r'].
+             ++ (* dangling key *)
+                replace (length pre =? length (pre ++ [a]) - 1) with true
+                  by (symmetry; apply Nat.eqb_eq; rewrite app_length; cbn [length]; lia).
+                reflexivity.
+             ++ replace (length pre =? length (pre ++ a :: b :: r') - 1) with false
+                  by (symmetry; apply Nat.eqb_neq; rewrite app_length; cbn [length]; lia).
+                assert (Hb : nth_error (pre ++ a :: b :: r') (length pre + 1) = Some b).
+                { replace (pre ++ a :: b :: r') with ((pre ++ [a]) ++ b :: r') by (rewrite <- app_assoc; reflexivity).
+                  replace (length pre + 1) with (length (pre ++ [a])) by (rewrite app_length; reflexivity).
+                  apply nth_error_mid. }
+                rewrite Hb.
+                replace (pre ++ a :: b :: r') with ((pre ++ [a; b]) ++ r')
+                  by (rewrite <- app_assoc; reflexivity).
+                replace (length pre + 2) with (length (pre ++ [a; b])) by (rewrite app_length; reflexivity).
+                cbn [length] in Hn, Hf.
+                destruct (as_string a) as [k|] eqn:Ek.
+                ** rewrite (IH r') by lia.
+                   replace (length (pre ++ [a; b])) with (S (S (length pre))) by (rewrite app_length; cbn; lia).
+                   reflexivity.
+                ** rewrite (IH r') by lia.
+                   replace (length (pre ++ [a; b])) with (S (S (length pre))) by (rewrite app_length; cbn; lia).
+                   reflexivity.
+  Qed.
+
+  (* what the accumulated state is, in terms of the items *)
+  Lemma apply_items_fields : forall its s,
+    sw_fields (apply_items its s) = sw_fields s ++ fields_of' its.
+  Proof.
+    induction its as [|it its IH]; intros s; cbn [apply_items fold_left fields_of filter_map].
+    - rewrite app_nil_r. reflexivity.
+    - fold (apply_items its (apply_item s it)). rewrite IH.
+      destruct it; cbn [apply_item out_field push_field push_call push_invalid set_seen sw_fields];
+        fold (fields_of' its); try rewrite <- app_assoc; reflexivity.
+  Qed.
+  Lemma apply_items_invalid : forall its s,
+    sw_invalid (apply_items its s) = sw_invalid s ++ bad_pairs V F its.
+  Proof.
+    induction its as [|it its IH]; intros s; cbn [apply_items fold_left bad_pairs filter_map].
+    - rewrite app_nil_r. reflexivity.
+    - fold (apply_items its (apply_item s it)). rewrite IH.
+      destruct it; cbn [apply_item push_field push_call push_invalid set_seen sw_invalid];
+        fold (bad_pairs V F its); try rewrite <- app_assoc; reflexivity.
+  Qed.
+  Lemma apply_items_calls : forall its s,
+    sw_calls (apply_items its s) = sw_calls s ++ calls_in_order its.
+  Proof.
+    induction its as [|it its IH]; intros s; cbn [apply_items fold_left calls_in_order filter_map].
+    - rewrite app_nil_r. reflexivity.
+    - fold (apply_items its (apply_item s it)). rewrite IH.
+      destruct it; cbn [apply_item call_of push_field push_call push_invalid set_seen sw_calls];
+        fold (calls_in_order its); try rewrite <- app_assoc; reflexivity.
+  Qed.
+
+  (* two-step induction on argument lists *)
+  Lemma list_ind2 : forall (P : list V -> Prop),
+    P [] -> (forall a, P [a]) -> (forall a r, P r -> P (a :: r)) -> forall l, P l.
+  Proof. intros P H0 _ Hc l. induction l; auto. Qed.
+
+  (* a dangling key can only be the last item, so the calls made during the sweep are
+     the further errors followed by the dangling key *)
+  Lemma calls_in_order_split : forall n l, length l <= n -> forall p seen,
+    calls_in_order (items' p seen l) =
+    map (fun e => (multipleErrMsg, [error_fld' e])) (extra_errs V F (items' p seen l))
+    ++ map (fun k => (oddNumberErrMsg, [any_fld key_ignored k])) (danglings V F (items' p seen l)).
+  Proof.
+    induction n as [|n IH]; intros l Hn p seen.
+    - destruct l; [reflexivity|cbn in Hn; lia].
+    - destruct l as [|a r]; [reflexivity|]. cbn [length] in Hn.
+      cbn [items]. destruct (as_field a) eqn:Ef.
+      + cbn [calls_in_order extra_errs danglings filter_map call_of].
+        apply (IH r); lia.
+      + destruct (is_error a) eqn:Ee.
+        * destruct seen; cbn [calls_in_order extra_errs danglings filter_map call_of map app].
+          -- f_equal. apply (IH r); lia.
+          -- apply (IH r); lia.
+        * destruct r as [|b r'].
+          -- reflexivity.
+          -- cbn [length] in Hn.
+             destruct (as_string a); cbn [calls_in_order extra_errs danglings filter_map call_of];
+               apply (IH r'); lia.
+  Qed.
+
+  (* ---- the sweep refines the structural specification; it is total ---- *)
+  Theorem sweeten_spec : forall args, sweeten' args = Done (spec_sweeten' args).
+  Proof.
+    intros args. unfold sweeten, spec_sweeten.
+    destruct args as [|a r] eqn:Ea; [reflexivity|]. rewrite <- Ea.
+    replace (length args =? 0) with false by (symmetry; apply Nat.eqb_neq; subst args; cbn; lia).
+    pose proof (sweep_items (length args) args (le_n _) [] (sw_init) (S (length args)) (Nat.lt_succ_diag_r _)) as H.
+    cbn [app length sw_seen sw_init] in H. rewrite H.
+    unfold finish. rewrite apply_items_fields, apply_items_invalid, apply_items_calls.
+    cbn [sw_fields sw_invalid sw_calls sw_init app].
+    f_equal. f_equal. unfold diag_calls_of.
+    rewrite (calls_in_order_split (length args) args (le_n _)). rewrite <- app_assoc. f_equal. f_equal.
+    destruct (bad_pairs V F (items' 0 false args)); reflexivity.
+  Qed.
+
+  Theorem sweep_total : forall args, exists s, sweep' (S (length args)) args 0 sw_init = Done s.
+  Proof.
+    intros args.
+    pose proof (sweep_items (length args) args (le_n _) [] (sw_init) (S (length args)) (Nat.lt_succ_diag_r _)) as H.
+    cbn [app length] in H. eexists. exact H.
+  Qed.
+
+  (* ---- accounting: the items tile the positions 0..n-1 ---- *)
+  Lemma spans_tile : forall n l, length l <= n -> forall p seen,
+    concat (map span (items' p seen l)) = seq p (length l).
+  Proof.
+    induction n as [|n IH]; intros l Hn p seen.
+    - destruct l; [reflexivity|cbn in Hn; lia].
+    - destruct l as [|a r]; [reflexivity|]. cbn [length] in Hn.
+      cbn [items]. destruct (as_field a).
+      + cbn [map concat span app length seq]. f_equal. apply IH; lia.
+      + destruct (is_error a).
+        * destruct seen; cbn [map concat span app length seq]; f_equal; apply IH; lia.
+        * destruct r as [|b r']; [reflexivity|]. cbn [length] in Hn.
+          destruct (as_string a); cbn [map concat span app length seq]; do 2 f_equal; apply IH; lia.
+  Qed.
+
+  (* each item says what really sits at its position(s) *)
+  Definition item_at (args : list V) (it : item') : Prop :=
+    match it with
+    | IField p f => exists a, nth_error args p = Some a /\ as_field a = Some f
+    | IFirstErr p e | IExtraErr p e => nth_error args p = Some e /\ as_field e = None /\ is_error e = true
+    | IPair p k v => exists a, nth_error args p = Some a /\ as_field a = None /\ is_error a = false /\
+                               as_string a = Some k /\ nth_error args (S p) = Some v
+    | IBadPair p k v => nth_error args p = Some k /\ as_field k = None /\ is_error k = false /\
+                        as_string k = None /\ nth_error args (S p) = Some v
+    | IDangling p k => nth_error args p = Some k /\ as_field k = None /\ is_error k = false /\ S p = length args
+    end.
+
+  Lemma items_at : forall n l, length l <= n -> forall pre seen,
+    Forall (item_at (pre ++ l)) (items' (length pre) seen l).
+  Proof.
+    induction n as [|n IH]; intros l Hn pre seen.
+    - destruct l; [constructor|cbn in Hn; lia].
+    - destruct l as [|a r]; [constructor|]. cbn [length] in Hn.
+      assert (Hstep : forall seen', Forall (item_at (pre ++ a :: r)) (items' (S (length pre)) seen' r)).
+      { intros seen'. rewrite (app_cons_assoc pre a r).
+        replace (S (length pre)) with (length (pre ++ [a])) by (rewrite app_length; cbn; lia).
+        apply IH; lia. }
+      cbn [items]. destruct (as_field a) as [f|] eqn:Ef.
+      + constructor; [|apply Hstep]. cbn [item_at]. exists a. split; [apply nth_error_mid|exact Ef].
+      + destruct (is_error a) eqn:Ee.
+        * constructor; [|apply Hstep].
+          destruct seen; cbn [item_at]; (split; [apply nth_error_mid|split; assumption]).
+        * destruct r as [|b r'].
+          -- constructor; [|constructor]. cbn [item_at].
+             split; [apply nth_error_mid|]. split; [exact Ef|]. split; [exact Ee|].
+             rewrite app_length. cbn. lia.
+          -- cbn [length] in Hn.
+             assert (Hb : nth_error (pre ++ a :: b :: r') (S (length pre)) = Some b).
+             { replace (pre ++ a :: b :: r') with ((pre ++ [a]) ++ b :: r') by (rewrite <- app_assoc; reflexivity).
+               replace (S (length pre)) with (length (pre ++ [a])) by (rewrite app_length; cbn; lia).
+               apply nth_error_mid. }
+             assert (Hrest : Forall (item_at (pre ++ a :: b :: r')) (items' (S (S (length pre))) seen r')).
+             { replace (pre ++ a :: b :: r') with ((pre ++ [a; b]) ++ r') by (rewrite <- app_assoc; reflexivity).
+               replace (S (S (length pre))) with (length (pre ++ [a; b])) by (rewrite app_length; cbn; lia).
+               apply IH; lia. }
+             destruct (as_string a) as [k|] eqn:Ek; (constructor; [|exact Hrest]); cbn [item_at].
+             ++ exists a. repeat split; try assumption. apply nth_error_mid.
+             ++ repeat split; try assumption. apply nth_error_mid.
+  Qed.
+
+  Lemma consumed_xor_reported : forall it : item', out_field' it = None <-> reported it = true.
+  Proof. intros it. destruct it; cbn; split; intros H; try reflexivity; discriminate. Qed.
+
+  Lemma in_filter_map : forall A B (f : A -> option B) l a b, In a l -> f a = Some b -> In b (filter_map f l).
+  Proof.
+    intros A B f l a b. induction l as [|x l IH]; intros Hin Hf; [contradiction|].
+    cbn [filter_map]. destruct Hin as [->|Hin].
+    - rewrite Hf. left. reflexivity.
+    - destruct (f x); [right|]; auto.
+  Qed.
+  Lemma filter_map_in : forall A B (f : A -> option B) l b, In b (filter_map f l) -> exists a, In a l /\ f a = Some b.
+  Proof.
+    intros A B f l b. induction l as [|x l IH]; intros Hin; [contradiction|].
+    cbn [filter_map] in Hin. destruct (f x) as [y|] eqn:Efx.
+    - destruct Hin as [<-|Hin]; [exists x; split; [left; reflexivity|exact Efx]|].
+      destruct (IH Hin) as [a [Ha Hfa]]. exists a. split; [right|]; assumption.
+    - destruct (IH Hin) as [a [Ha Hfa]]. exists a. split; [right|]; assumption.
+  Qed.
+
+  (* nothing vanishes: a consumed item's field is in the output ... *)
+  Lemma consumed_logged : forall its it f, In it its -> out_field' it = Some f -> In f (fields_of' its).
+  Proof. intros its it f Hin Hf. unfold fields_of. eapply in_filter_map; eassumption. Qed.
+  (* ... every output field comes from a consumed item ... *)
+  Lemma logged_consumed : forall its f, In f (fields_of' its) -> exists it, In it its /\ out_field' it = Some f.
+  Proof. intros its f H. apply filter_map_in in H. exact H. Qed.
+  (* ... and a reported item is identified by a diagnostic *)
+  Definition identified (its : list item') (it : item') : Prop :=
+    match it with
+    | IExtraErr _ e => In (multipleErrMsg, [error_fld' e]) (diag_calls_of' its)
+    | IDangling _ k => In (oddNumberErrMsg, [any_fld key_ignored k]) (diag_calls_of' its)
+    | IBadPair p k v => exists ps, In (p, k, v) ps /\ In (nonStringKeyErrMsg, [array_invalid ps]) (diag_calls_of' its)
+    | _ => True
+    end.
+  Lemma reported_identified : forall its it, In it its -> identified its it.
+  Proof.
+    intros its it Hin. destruct it as [p f|p e|p e|p k v|p k v|p k]; cbn [identified]; try exact I; unfold diag_calls_of.
+    - apply in_or_app. left. apply in_map_iff. exists e. split; [reflexivity|].
+      unfold extra_errs. eapply in_filter_map; [exact Hin|reflexivity].
+    - assert (Hb : In (p, k, v) (bad_pairs V F its)).
+      { unfold bad_pairs. eapply in_filter_map; [exact Hin|reflexivity]. }
+      exists (bad_pairs V F its). split; [exact Hb|].
+      apply in_or_app. right. apply in_or_app. right.
+      destruct (bad_pairs V F its); [contradiction|left; reflexivity].
+    - apply in_or_app. right. apply in_or_app. left. apply in_map_iff. exists k. split; [reflexivity|].
+      unfold danglings. eapply in_filter_map; [exact Hin|reflexivity].
+  Qed.
+
+  (* C14_account *)
+  Theorem account_thm : forall args,
+    let its := items' 0 false args in
+    sweeten' args = Done (fields_of' its, diag_calls_of' its) /\
+    concat (map span its) = seq 0 (length args) /\
+    Forall (item_at args) its /\
+    (forall it, In it its -> (out_field' it = None <-> reported it = true)) /\
+    (forall it f, In it its -> out_field' it = Some f -> In f (fields_of' its)) /\
+    (forall f, In f (fields_of' its) -> exists it, In it its /\ out_field' it = Some f) /\
+    (forall it, In it its -> identified its it).
+  Proof.
+    intros args its. split; [apply sweeten_spec|].
+    split; [apply (spans_tile (length args)); lia|].
+    split; [apply (items_at (length args) args (le_n _) [] false)|].
+    split; [intros it _; apply consumed_xor_reported|].
+    split; [intros it f; apply consumed_logged|].
+    split; [apply logged_consumed|apply reported_identified].
+  Qed.
+
+  (* ---- order ---- *)
+  Lemma starts_sorted : forall n l, length l <= n -> forall p seen,
+    Forall (fun it => p <= start it) (items' p seen l) /\ StronglySorted lt (map start (items' p seen l)).
+  Proof.
+    induction n as [|n IH]; intros l Hn p seen.
+    - destruct l; [split; constructor|cbn in Hn; lia].
+    - destruct l as [|a r]; [split; constructor|]. cbn [length] in Hn.
+      assert (H1 : forall seen' it0, start it0 = p ->
+                Forall (fun it => p <= start it) (it0 :: items' (S p) seen' r) /\
+                StronglySorted lt (map start (it0 :: items' (S p) seen' r))).
+      { intros seen' it0 Hs. destruct (IH r ltac:(lia) (S p) seen') as [Hf Hsrt]. split.
+        - constructor; [lia|]. eapply Forall_impl; [|exact Hf]. cbn. intros; lia.
+        - cbn [map]. constructor; [exact Hsrt|]. rewrite Forall_map, Hs.
+          eapply Forall_impl; [|exact Hf]. cbn. intros; lia. }
+      cbn [items]. destruct (as_field a).
+      + apply H1. reflexivity.
+      + destruct (is_error a).
+        * destruct seen; apply H1; reflexivity.
+        * destruct r as [|b r'].
+          -- split; [constructor; [cbn; lia|constructor]|cbn; constructor; constructor].
+          -- cbn [length] in Hn. destruct (IH r' ltac:(lia) (S (S p)) seen) as [Hf Hsrt].
+             assert (H2 : forall it0, start it0 = p ->
+                Forall (fun it => p <= start it) (it0 :: items' (S (S p)) seen r') /\
+                StronglySorted lt (map start (it0 :: items' (S (S p)) seen r'))).
+             { intros it0 Hs. split.
+               - constructor; [lia|]. eapply Forall_impl; [|exact Hf]. cbn. intros; lia.
+               - cbn [map]. constructor; [exact Hsrt|]. rewrite Forall_map, Hs.
+                 eapply Forall_impl; [|exact Hf]. cbn. intros; lia. }
+             destruct (as_string a); apply H2; reflexivity.
+  Qed.
+
+  Theorem order_thm : forall args,
+    StronglySorted lt (map start (items' 0 false args)) /\
+    NoDup (concat (map span (items' 0 false args))).
+  Proof.
+    intros args. split.
+    - apply (starts_sorted (length args) args (le_n _) 0 false).
+    - rewrite (spans_tile (length args)) by lia. apply seq_NoDup.
+  Qed.
+
+  (* ---- typed fields ---- *)
+  Theorem typed_unchanged_thm : forall args p f,
+    In (IField p f) (items' 0 false args) ->
+    (exists a, nth_error args p = Some a /\ as_field a = Some f) /\
+    exists fs calls, sweeten' args = Done (fs, calls) /\ In f fs.
+  Proof.
+    intros args p f Hin. split.
+    - pose proof (items_at (length args) args (le_n _) [] false) as H. cbn [app length] in H.
+      rewrite Forall_forall in H. exact (H _ Hin).
+    - eexists. eexists. split; [apply sweeten_spec|]. cbn [spec_sweeten].
+      eapply consumed_logged; [exact Hin|reflexivity].
+  Qed.
+
+  Lemma items_all_fields : forall fs args p seen, map as_field args = map Some fs ->
+    items' p seen args = map (fun pf => IField (fst pf) (snd pf)) (combine (seq p (length fs)) fs).
+  Proof.
+    induction fs as [|f fs IH]; intros args p seen H.
+    - destruct args; [reflexivity|discriminate].
+    - destruct args as [|a r]; [discriminate|]. cbn [map] in H. injection H as Ha Hr.
+      cbn [items]. rewrite Ha. cbn [length seq combine map fst snd]. f_equal. apply IH. exact Hr.
+  Qed.
+  Lemma fields_of_all_fields : forall fs ps, length ps = length fs ->
+    fields_of' (map (fun pf => IField (fst pf) (snd pf)) (combine ps fs)) = fs /\
+    diag_calls_of' (map (fun pf => IField (fst pf) (snd pf)) (combine ps fs)) = [].
+  Proof.
+    induction fs as [|f fs IH]; intros ps Hl.
+    - destruct ps; split; reflexivity.
+    - destruct ps as [|p ps]; [discriminate|]. cbn [length] in Hl. injection Hl as Hl.
+      destruct (IH ps Hl) as [H1 H2]. split.
+      + cbn [combine map fields_of filter_map out_field fst snd]. f_equal. exact H1.
+      + unfold diag_calls_of in *. cbn [combine map extra_errs danglings bad_pairs filter_map fst snd]. exact H2.
+  Qed.
+  Theorem all_typed_thm : forall fs args, map as_field args = map Some fs -> sweeten' args = Done (fs, []).
+  Proof.
+    intros fs args H. rewrite sweeten_spec. unfold spec_sweeten.
+    rewrite (items_all_fields fs args 0 false H).
+    destruct (fields_of_all_fields fs (seq 0 (length fs)) (seq_length _ _)) as [H1 H2].
+    rewrite H1, H2. reflexivity.
+  Qed.
+
+  (* ---- string-keyed pairs ---- *)
+  Definition flat_pairs (kvs : list (V * bytes * V)) : list V :=
+    concat (map (fun t => [fst (fst t); snd t]) kvs).
+  Definition good_key (t : V * bytes * V) : Prop :=
+    as_field (fst (fst t)) = None /\ is_error (fst (fst t)) = false /\ as_string (fst (fst t)) = Some (snd (fst t)).
+  Lemma items_all_pairs : forall kvs p seen, Forall good_key kvs ->
+    fields_of' (items' p seen (flat_pairs kvs)) = map (fun t => any_fld (snd (fst t)) (snd t)) kvs /\
+    diag_calls_of' (items' p seen (flat_pairs kvs)) = [].
+  Proof.
+    induction kvs as [|[[a k] v] kvs IH]; intros p seen H.
+    - split; reflexivity.
+    - inversion H as [|x l [Hf [He Hs]] Hrest]; subst. cbn [fst snd] in Hf, He, Hs.
+      destruct (IH (S (S p)) seen Hrest) as [H1 H2].
+      unfold flat_pairs in *. cbn [map concat app fst snd items]. rewrite Hf, He, Hs. split.
+      + cbn [fields_of filter_map out_field map fst snd]. f_equal. exact H1.
+      + unfold diag_calls_of in *. cbn [extra_errs danglings bad_pairs filter_map]. exact H2.
+  Qed.
+  Theorem pairs_any_thm : forall kvs, Forall good_key kvs ->
+    sweeten' (flat_pairs kvs) = Done (map (fun t => any_fld (snd (fst t)) (snd t)) kvs, []).
+  Proof.
+    intros kvs H. rewrite sweeten_spec. unfold spec_sweeten.
+    destruct (items_all_pairs kvs 0 false H) as [H1 H2]. rewrite H1, H2. reflexivity.
+  Qed.
+
+  Theorem pair_at_thm : forall args p k v,
+    In (IPair p k v) (items' 0 false args) ->
+    (exists a, nth_error args p = Some a /\ as_string a = Some k /\ nth_error args (S p) = Some v) /\
+    exists fs calls, sweeten' args = Done (fs, calls) /\ In (any_fld k v) fs.
+  Proof.
+    intros args p k v Hin. split.
+    - pose proof (items_at (length args) args (le_n _) [] false) as H. cbn [app length] in H.
+      rewrite Forall_forall in H. destruct (H _ Hin) as [a [H1 [_ [_ [H2 H3]]]]].
+      exists a. auto.
+    - eexists. eexists. split; [apply sweeten_spec|]. cbn [spec_sweeten].
+      eapply consumed_logged; [exact Hin|reflexivity].
+  Qed.
+
+  (* ---- bare errors: the first under key "error", every further one reported ---- *)
+  Definition is_err_item (it : item') : bool :=
+    match it with IFirstErr _ _ | IExtraErr _ _ => true | _ => false end.
+  Definition is_extra (it : item') : Prop := exists p e, it = IExtraErr p e.
+  Definition is_first (it : item') : Prop := exists p e, it = IFirstErr p e.
+
+  Lemma err_items_seen : forall n l, length l <= n -> forall p,
+    Forall is_extra (filter is_err_item (items' p true l)).
+  Proof.
+    induction n as [|n IH]; intros l Hn p.
+    - destruct l; [constructor|cbn in Hn; lia].
+    - destruct l as [|a r]; [constructor|]. cbn [length] in Hn.
+      cbn [items]. destruct (as_field a).
+      + cbn [filter is_err_item]. apply IH; lia.
+      + destruct (is_error a).
+        * cbn [filter is_err_item]. constructor; [exists p, a; reflexivity|apply IH; lia].
+        * destruct r as [|b r']; [constructor|]. cbn [length] in Hn.
+          destruct (as_string a); cbn [filter is_err_item]; apply IH; lia.
+  Qed.
+  Lemma err_items_unseen : forall n l, length l <= n -> forall p,
+    match filter is_err_item (items' p false l) with
+    | [] => True
+    | first :: rest => is_first first /\ Forall is_extra rest
+    end.
+  Proof.
+    induction n as [|n IH]; intros l Hn p.
+    - destruct l; [exact I|cbn in Hn; lia].
+    - destruct l as [|a r]; [exact I|]. cbn [length] in Hn.
+      cbn [items]. destruct (as_field a).
+      + cbn [filter is_err_item]. apply IH; lia.
+      + destruct (is_error a).
+        * cbn [filter is_err_item]. split; [exists p, a; reflexivity|].
+          apply (err_items_seen n); lia.
+        * destruct r as [|b r']; [exact I|]. cbn [length] in Hn.
+          destruct (as_string a); cbn [filter is_err_item]; apply IH; lia.
+  Qed.
+
+  Theorem first_error_thm : forall args,
+    let its := items' 0 false args in
+    match filter is_err_item its with
+    | [] => True
+    | first :: rest =>
+        (exists p e, first = IFirstErr p e /\ out_field' first = Some (named_error key_error e)) /\
+        Forall (fun it => exists p e, it = IExtraErr p e /\
+                  In (multipleErrMsg, [named_error key_error e]) (diag_calls_of' its)) rest
+    end.
+  Proof.
+    intros args its.
+    pose proof (err_items_unseen (length args) args (le_n _) 0) as H. fold its in H.
+    destruct (filter is_err_item its) as [|first rest] eqn:Efil; [exact I|].
+    destruct H as [[p [e ->]] Hrest]. split.
+    - exists p, e. split; reflexivity.
+    - rewrite Forall_forall in *. intros it Hit. destruct (Hrest it Hit) as [q [e' ->]].
+      exists q, e'. split; [reflexivity|].
+      assert (Hin : In (IExtraErr q e') its).
+      { assert (Hx : In (IExtraErr q e') (filter is_err_item its)) by (rewrite Efil; right; exact Hit).
+        apply filter_In in Hx. exact (proj1 Hx). }
+      exact (reported_identified its _ Hin).
+  Qed.
+
+  (* ---- entries ---- *)
+  Lemma diag_entries_spec : forall (lg : logger F) cs, diag_entries lg cs = spec_diag_entries lg cs.
+  Proof.
+    intros lg cs. unfold diag_entries, spec_diag_entries, base_error.
+    replace (ErrorLevel <? DPanicLevel)%Z with true by reflexivity. cbn [andb].
+    destruct (lg_en lg ErrorLevel) eqn:Een; cbn [negb].
+    - induction cs as [|c cs IH]; [reflexivity|]. cbn [map concat app]. f_equal. exact IH.
+    - induction cs as [|c cs IH]; [reflexivity|]. cbn [map concat app]. exact IH.
+  Qed.
+
+  Definition with_ctx (lg : logger F) (fs : list F) : logger F :=
+    {| lg_ctx := lg_ctx lg ++ fs; lg_en := lg_en lg; lg_dev := lg_dev lg |}.
+
+  (* C14_with: With/WithLazy never fail; the context grows by exactly the well-formed
+     arguments; the diagnostics are error-level entries carrying the receiver's context *)
+  Theorem with_thm : forall lg args,
+    let its := items' 0 false args in
+    swith' lg args = Done (with_ctx lg (fields_of' its), spec_diag_entries lg (diag_calls_of' its)).
+  Proof.
+    intros lg args its. unfold swith. rewrite sweeten_spec. unfold spec_sweeten. fold its.
+    rewrite diag_entries_spec. reflexivity.
+  Qed.
+
+  (* C14_diags: when the error level is enabled, each diagnostic call is one entry *)
+  Theorem diags_thm : forall lg args, lg_en lg ErrorLevel = true ->
+    let its := items' 0 false args in
+    exists lg', swith' lg args = Done (lg',
+      map (fun e => Build_entry ErrorLevel multipleErrMsg (lg_ctx lg ++ [named_error key_error e])) (extra_errs V F its)
+      ++ map (fun k => Build_entry ErrorLevel oddNumberErrMsg (lg_ctx lg ++ [any_fld key_ignored k])) (danglings V F its)
+      ++ match bad_pairs V F its with
+         | [] => []
+         | ps => [Build_entry ErrorLevel nonStringKeyErrMsg (lg_ctx lg ++ [array_invalid ps])]
+         end).
+  Proof.
+    intros lg args Hen its. eexists. rewrite with_thm. fold its. f_equal. f_equal.
+    unfold spec_diag_entries. rewrite Hen. unfold diag_calls_of.
+    rewrite !map_app, !map_map. cbn [fst snd]. f_equal. f_equal.
+    destruct (bad_pairs V F its); reflexivity.
+  Qed.
+
+  (* the flip side, stated so that it is not overlooked: on a logger whose core does not
+     enable ErrorLevel the malformed arguments are reported nowhere *)
+  Theorem diags_need_error_level : forall lg args, lg_en lg ErrorLevel = false ->
+    exists lg', swith' lg args = Done (lg', []).
+  Proof.
+    intros lg args Hen. eexists. rewrite with_thm. unfold spec_diag_entries. rewrite Hen. reflexivity.
+  Qed.
+
+  (* a logging call whose level is enabled: diagnostics, then exactly one entry at the
+     call's level with context ++ well-formed arguments; never an index panic *)
+  Theorem check_write_enabled : forall lg lvl msg context, lg_en lg lvl = true ->
+    let its := items' 0 false context in
+    check_write' lg lvl msg context =
+      (spec_diag_entries lg (diag_calls_of' its) ++ [Build_entry lvl msg (lg_ctx lg ++ fields_of' its)],
+       terminal lg lvl).
+  Proof.
+    intros lg lvl msg context Hen its. unfold check_write. rewrite Hen.
+    cbn [negb andb orb]. rewrite andb_false_r. rewrite sweeten_spec. unfold spec_sweeten. fold its.
+    rewrite diag_entries_spec. reflexivity.
+  Qed.
+  Theorem check_write_disabled : forall lg lvl msg context, lg_en lg lvl = false ->
+    let its := items' 0 false context in
+    check_write' lg lvl msg context = ([], TNone) \/
+    check_write' lg lvl msg context = (spec_diag_entries lg (diag_calls_of' its), terminal lg lvl).
+  Proof.
+    intros lg lvl msg context Hen its. unfold check_write. rewrite Hen. cbn [negb].
+    destruct (lvl <? DPanicLevel)%Z; cbn [andb orb]; [left; reflexivity|].
+    destruct (term_is_none (terminal lg lvl)); cbn [negb]; [left; reflexivity|right].
+    rewrite sweeten_spec. unfold spec_sweeten. fold its. rewrite diag_entries_spec, app_nil_r. reflexivity.
+  Qed.
+
+  Lemma terminal_not_crash : forall (lg : logger F) lvl, terminal lg lvl <> TCrash.
+  Proof.
+    intros lg lvl. unfold terminal.
+    destruct (lvl =? PanicLevel)%Z; [discriminate|].
+    destruct (lvl =? FatalLevel)%Z; [discriminate|].
+    destruct (lvl =? DPanicLevel)%Z; [destruct (lg_dev lg)|]; discriminate.
+  Qed.
+
+  (* ---- messages ---- *)
+  Theorem message_print : forall args sprintf sprint,
+    (args = [] -> sprint = []) ->
+    (forall a s, args = [a] -> as_string a = Some s -> sprint = s) ->
+    get_message' [] args sprintf sprint = sprint.
+  Proof.
+    intros args sprintf sprint H0 H1. unfold get_message.
+    destruct args as [|a r]; [cbn; symmetry; auto|].
+    cbn [length Nat.eqb is_nil negb].
+    destruct r; [|reflexivity]. destruct (as_string a) eqn:Ea; [|reflexivity].
+    symmetry. eapply H1; [reflexivity|exact Ea].
+  Qed.
+  Theorem message_f_partial : forall template args sprintf sprint,
+    template <> [] \/ args = [] ->
+    get_message' template args sprintf sprint = if is_nil args then template else sprintf.
+  Proof.
+    intros template args sprintf sprint H. unfold get_message.
+    destruct args as [|a r]; [reflexivity|]. cbn [length Nat.eqb is_nil].
+    destruct H as [H|H]; [|discriminate].
+    destruct template; [contradiction|reflexivity].
+  Qed.
+  Theorem message_w : forall msg sprintf sprint, get_message' msg [] sprintf sprint = msg.
+  Proof. reflexivity. Qed.
+  Theorem message_ln : forall m, get_messageln (m ++ [x0a]) = Some m.
+  Proof.
+    intros m. unfold get_messageln. rewrite removelast_last. destruct m; reflexivity.
+  Qed.
+
+  (* hypotheses about fmt used by getMessage's shortcuts, and the known deviation *)
+  Definition fmt_facts (c : call V) : Prop :=
+    match c_fam c with
+    | FamPrint => (c_args c = [] -> c_sprint c = []) /\
+                  (forall a s, c_args c = [a] -> as_string a = Some s -> c_sprint c = s)
+    | FamLn => exists m, c_sprintln c = m ++ [x0a]
+    | _ => True
+    end.
+  Definition not_empty_template (c : call V) : Prop :=
+    match c_fam c with FamF => c_text c <> [] \/ c_args c = [] | _ => True end.
+
+  Lemma bytes_eqb_refl : forall b, bytes_eqb b b = true.
+  Proof. intros b. apply bytes_eqb_eq. reflexivity. Qed.
+
+  (* one logging call, level enabled *)
+  Theorem call_enabled : forall lg c, lg_en lg (c_lvl c) = true -> fmt_facts c -> not_empty_template c ->
+    let its := items' 0 false (call_context c) in
+    exists msg, msg_ok V c msg = true /\
+      do_call' lg c =
+        (spec_diag_entries lg (diag_calls_of' its) ++ [Build_entry (c_lvl c) msg (lg_ctx lg ++ fields_of' its)],
+         terminal lg (c_lvl c)).
+  Proof.
+    intros lg c Hen Hfmt Hkf its. unfold do_call, msg_ok, call_context in *.
+    unfold fmt_facts, not_empty_template in *.
+    destruct (c_fam c) eqn:Efam.
+    - exists (c_text c). split; [apply bytes_eqb_refl|].
+      unfold slog. rewrite Hen. cbn [negb]. rewrite andb_false_r. rewrite message_w.
+      apply check_write_enabled. exact Hen.
+    - exists (c_sprint c). split; [apply bytes_eqb_refl|].
+      unfold slog. rewrite Hen. cbn [negb]. rewrite andb_false_r.
+      destruct Hfmt as [H0 H1]. rewrite (message_print _ _ _ H0 H1).
+      apply (check_write_enabled lg (c_lvl c) (c_sprint c) [] Hen).
+    - exists (if is_nil (c_args c) then c_text c else c_sprintf c). split.
+      + destruct (is_nil (c_args c)); apply bytes_eqb_refl.
+      + unfold slog. rewrite Hen. cbn [negb]. rewrite andb_false_r.
+        rewrite (message_f_partial _ _ _ _ Hkf).
+        apply (check_write_enabled lg (c_lvl c) _ [] Hen).
+    - destruct Hfmt as [m Hm]. exists m. split.
+      + rewrite Hm. apply bytes_eqb_refl.
+      + unfold slogln. rewrite Hen. cbn [negb]. rewrite andb_false_r.
+        rewrite Hm, message_ln.
+        apply (check_write_enabled lg (c_lvl c) m [] Hen).
+  Qed.
+
+  (* one logging call, level disabled: nothing at that level; possibly its diagnostics *)
+  Theorem call_disabled : forall lg c, lg_en lg (c_lvl c) = false -> fmt_facts c ->
+    let its := items' 0 false (call_context c) in
+    (do_call' lg c = ([], TNone)) \/
+    (do_call' lg c = (spec_diag_entries lg (diag_calls_of' its), terminal lg (c_lvl c))).
+  Proof.
+    intros lg c Hen Hfmt its. unfold do_call, call_context, fmt_facts in *.
+    destruct (c_fam c) eqn:Efam; unfold slog, slogln; rewrite Hen; cbn [negb]; rewrite andb_true_r;
+      (destruct (c_lvl c <? DPanicLevel)%Z; [left; reflexivity|]).
+    - apply check_write_disabled. exact Hen.
+    - apply (check_write_disabled lg (c_lvl c) _ [] Hen).
+    - apply (check_write_disabled lg (c_lvl c) _ [] Hen).
+    - destruct Hfmt as [m Hm]. rewrite Hm, message_ln.
+      apply (check_write_disabled lg (c_lvl c) _ [] Hen).
+  Qed.
+
+  (* whole programs: With chain then a call *)
+  Lemma run_spec : forall withs lg c,
+    run' lg withs c =
+    (snd (spec_withs' lg withs) ++ fst (do_call' (fst (spec_withs' lg withs)) c),
+     snd (do_call' (fst (spec_withs' lg withs)) c)).
+  Proof.
+    induction withs as [|a r IH]; intros lg c.
+    - cbn [run spec_withs fst snd app]. destruct (do_call' lg c). reflexivity.
+    - cbn [run spec_withs]. rewrite with_thm. unfold spec_sweeten.
+      specialize (IH (with_ctx lg (fields_of' (items' 0 false a))) c).
+      unfold with_ctx in *.
+      destruct (run' _ r c) as [es' t] eqn:Erun.
+      destruct (spec_withs' _ r) as [lg' es] eqn:Ew.
+      cbn [fst snd] in *. injection IH as -> ->. rewrite app_assoc. reflexivity.
+  Qed.
+
+  Lemma spec_withs_en : forall withs lg,
+    lg_en (fst (spec_withs' lg withs)) = lg_en lg /\ lg_dev (fst (spec_withs' lg withs)) = lg_dev lg.
+  Proof.
+    induction withs as [|a r IH]; intros lg; [split; reflexivity|].
+    cbn [spec_withs]. destruct (spec_sweeten' a) as [fs cs].
+    specialize (IH {| lg_ctx := lg_ctx lg ++ fs; lg_en := lg_en lg; lg_dev := lg_dev lg |}).
+    destruct (spec_withs' _ r) as [lg' es]. cbn [fst] in *. exact IH.
+  Qed.
+
+  (* C14_total at the level of programs: no index panic, for any logger, chain and call *)
+  Theorem never_crash : forall lg withs c, fmt_facts c -> snd (run' lg withs c) <> TCrash.
+  Proof.
+    intros lg withs c Hfmt. rewrite run_spec. cbn [snd].
+    set (lg' := fst (spec_withs' lg withs)).
+    destruct (lg_en lg' (c_lvl c)) eqn:Een.
+    - (* enabled: need not_empty_template only for the message, not for the terminal state *)
+      unfold do_call. destruct (c_fam c) eqn:Efam; unfold slog, slogln; rewrite Een; cbn [negb]; rewrite andb_false_r.
+      + rewrite check_write_enabled by exact Een. cbn [snd]. apply terminal_not_crash.
+      + rewrite check_write_enabled by exact Een. cbn [snd]. apply terminal_not_crash.
+      + rewrite check_write_enabled by exact Een. cbn [snd]. apply terminal_not_crash.
+      + unfold fmt_facts in Hfmt. rewrite Efam in Hfmt. destruct Hfmt as [m Hm]. rewrite Hm, message_ln.
+        rewrite check_write_enabled by exact Een. cbn [snd]. apply terminal_not_crash.
+    - destruct (call_disabled lg' c Een Hfmt) as [H|H]; rewrite H; cbn [snd]; [discriminate|apply terminal_not_crash].
+  Qed.
+
+End Generic.
+
+(* ====================================================================== *)
+(* wire instance *)
+
+Lemma sx_eqb_refl : forall s, sx_eqb s s = true.
+Proof.
+  fix IH 1. intros [z|b|l]; cbn [sx_eqb].
+  - apply Z.eqb_refl.
+  - apply bytes_eqb_eq. reflexivity.
+  - induction l as [|a l IHl]; [reflexivity|]. rewrite IH. cbn [andb]. exact IHl.
+Qed.
+
+Local Notation W f := (f sx sx w_as_field w_is_error w_as_string w_any w_named_error w_array_invalid).
+
+Lemma fmt_wf_facts : forall i, fmt_wf i = true -> fmt_facts sx w_as_string (dec_call i).
+Proof.
+  intros i H. unfold fmt_wf, fmt_facts in *. destruct (c_fam (dec_call i)).
+  - exact I.
+  - destruct (c_args (dec_call i)) as [|a [|b r]].
+    + split; [intros _|intros a s Hc; discriminate]. destruct (c_sprint (dec_call i)); [reflexivity|discriminate].
+    + split; [intros Hc; discriminate|]. intros a' s Hc Hs. injection Hc as <-. rewrite Hs in H.
+      apply bytes_eqb_eq in H. exact H.
+    + split; [intros Hc; discriminate|intros a' s Hc; discriminate].
+  - exact I.
+  - exists (removelast (c_sprintln (dec_call i))). apply bytes_eqb_eq in H. symmetry. exact H.
+Qed.
+
+Lemma kf_not_empty : forall i, kf_empty_template i = false -> not_empty_template sx (dec_call i).
+Proof.
+  intros i H. unfold kf_empty_template, not_empty_template in *. destruct (c_fam (dec_call i)); try exact I.
+  destruct (c_text (dec_call i)); [right|left; discriminate].
+  cbn [is_nil andb] in H. destruct (c_args (dec_call i)); [reflexivity|discriminate].
+Qed.
+
+Lemma term_code_ok : forall t, t <> TCrash ->
+  ((0 <=? sx_z (enc_term t)) && (sx_z (enc_term t) <=? 2))%Z = true.
+Proof. intros [] H; try reflexivity. contradiction. Qed.
+
+Lemma rev_snoc_match : forall (pre : list sx) (x : sx), rev (pre ++ [x]) = x :: rev pre.
+Proof. intros. rewrite rev_app_distr. reflexivity. Qed.
+
+Theorem spec_model : forall i, wf i = true -> spec i (model i) = true.
+Proof.
+  intros i Hwf. unfold wf in Hwf. apply andb_true_iff in Hwf. destruct Hwf as [Hfmt Hkf].
+  apply negb_true_iff in Hkf.
+  pose proof (fmt_wf_facts i Hfmt) as Hfacts. pose proof (kf_not_empty i Hkf) as Hne.
+  unfold spec, model, w_run, w_spec_withs, w_spec_sweeten.
+  rewrite run_spec.
+  set (lg := dec_logger i) in *. set (c := dec_call i) in *.
+  destruct (W spec_withs lg (dec_withs i)) as [lg' wes] eqn:Ew. cbn [fst snd].
+  assert (Hen' : lg_en lg' = lg_en lg).
+  { pose proof (spec_withs_en sx sx w_as_field w_is_error w_as_string w_any w_named_error w_array_invalid (dec_withs i) lg) as H.
+    rewrite Ew in H. cbn [fst] in H. exact (proj1 H). }
+  unfold spec_sweeten.
+  set (its := items sx sx w_as_field w_is_error w_as_string 0 false (call_context c)).
+  destruct (lg_en lg (c_lvl c)) eqn:Een.
+  - assert (Een' : lg_en lg' (c_lvl c) = true) by (rewrite Hen'; exact Een).
+    destruct (call_enabled sx sx w_as_field w_is_error w_as_string w_any w_named_error w_array_invalid lg' c Een' Hfacts Hne)
+      as [msg [Hmsg Hcall]].
+    fold its in Hcall. rewrite Hcall. cbn [fst snd sx_nth sx_l nth].
+    rewrite (term_code_ok _ (terminal_not_crash sx lg' (c_lvl c))). cbn [andb].
+    unfold enc_entries. cbn [sx_l]. rewrite app_assoc, map_app. cbn [map]. rewrite rev_snoc_match, rev_involutive.
+    rewrite sx_eqb_refl. cbn [andb enc_entry sx_nth sx_l nth sx_b en_lvl en_msg en_fields].
+    rewrite Hmsg, !sx_eqb_refl. reflexivity.
+  - assert (Een' : lg_en lg' (c_lvl c) = false) by (rewrite Hen'; exact Een).
+    destruct (call_disabled sx sx w_as_field w_is_error w_as_string w_any w_named_error w_array_invalid lg' c Een' Hfacts)
+      as [Hcall|Hcall]; fold its in Hcall; rewrite Hcall; cbn [fst snd sx_nth sx_l nth enc_entries].
+    + rewrite app_nil_r. rewrite (term_code_ok TNone) by discriminate. cbn [andb].
+      rewrite sx_eqb_refl. reflexivity.
+    + rewrite (term_code_ok _ (terminal_not_crash sx lg' (c_lvl c))). cbn [andb].
+      rewrite sx_eqb_refl, orb_true_r. reflexivity.
+Qed.
+
+(* ---- the known deviation, on the faithful model: Infof("", 1, 2) ---- *)
+Definition kf_witness : sx :=
+  let one := SL [SZ 3] in
+  SL [ SL [SZ 1; SZ 1; SZ 1; SZ 1; SZ 1; SZ 1; SZ 1]; SZ 0; SL [];
+       SL [SZ 2; SZ 0; SB []; SL [one; one];
+           SB [x31; x20; x32];                                              (* Sprint(1, 2) = "1 2" *)
+           SB [x25; x21; x28; x45; x58; x54; x52; x41; x20; x69; x6e; x74; x3d; x31; x2c; x20;
+               x69; x6e; x74; x3d; x32; x29];                              (* Sprintf("", 1, 2) = "%!(EXTRA int=1, int=2)" *)
+           SB [x31; x20; x32; x0a]; SZ 0] ].
+
+Lemma kf_witness_refuted : fmt_wf kf_witness = true /\ spec kf_witness (model kf_witness) = false.
+Proof. split; vm_compute; reflexivity. Qed.
+
+(* the full message statement for the f-family: false of the code *)
+Definition messages_full : Prop :=
+  forall template (args : list sx) sprintf sprint,
+    get_message sx w_as_string template args sprintf sprint = if is_nil args then template else sprintf.
+Lemma messages_full_refuted : ~ messages_full.
+Proof.
+  intros H. specialize (H [] [SL [SZ 3]; SL [SZ 3]] [x25] [x31]). vm_compute in H. discriminate.
+Qed.
+
+(* sanity: a mixed list  ("k", 1, err1, err2, 7, 8, field, "dangling") *)
+Definition ex_str (k : bytes) : sx := SL [SZ 2; SL []; SB k; SL [SZ 15; SZ 0; SB k; SL []]; SL []; SL []; SL []].
+Definition ex_int (n : Z) : sx := SL [SZ 3; SL []; SB []; SL [SZ 11; SZ n; SB []; SL []]; SL []; SL [SZ n]; SL [SZ n]].
+Definition ex_err (n : Z) : sx := SL [SZ 1; SL []; SB []; SL [SZ 26; SZ 0; SB []; SL [SZ n]]; SL [SZ 26; SZ 0; SB []; SL [SZ n]]; SL []; SL []].
+Definition ex_fld (k : bytes) : sx := SL [SZ 0; SL [SB k; SZ 4; SZ 1; SB []; SL []]; SB []; SL [SZ 23; SZ 0; SB []; SL []]; SL []; SL []; SL []].
+Definition ex_args : list sx :=
+  [ex_str [x6b]; ex_int 1; ex_err 1; ex_err 2; ex_int 7; ex_int 8; ex_fld [x66]; ex_str [x64]].
+(* With(ex_args...) then Infow("m", ex_args...) on a logger with every level enabled *)
+Definition ex_case : sx :=
+  SL [ SL [SZ 1; SZ 1; SZ 1; SZ 1; SZ 1; SZ 1; SZ 1]; SZ 0; SL [SL [SZ 0; SL ex_args]];
+       SL [SZ 0; SZ 0; SB [x6d]; SL ex_args; SB []; SB []; SB [x0a]; SZ 0] ].
